@@ -39,7 +39,8 @@ VARIABLES
   wstate,                 \* watcher id -> "none" | "open" | "closed" | "nil" (creation failed)
   tracked,                \* the shared tracked map: d -> "no" (not in the map) | "f" | "t"
   watches,                \* kernel: watcher id -> d -> generation watched (0 none)
-  kq, infl,               \* kernel queue per watcher; event the fsnotify reader is delivering
+  kq, ub, infl,           \* kernel queue per watcher; events fsnotify has read from the kernel but not delivered yet;
+                          \* the event its reader goroutine is delivering (blocked on the unbuffered channel)
   gor,                    \* watcher id -> [pc, ev]: the goroutine started with that watcher (and that dirErrors map)
   errs,                   \* dirErrors map id -> d -> "none" | "monitor" | "removed" | "create"
   idx,                    \* the index: d -> content of the Spec name as last scanned (0 none)
@@ -48,7 +49,7 @@ VARIABLES
   obs,                    \* result of the last query
   hist                    \* recorded actions (only when RECORD)
 
-vars == <<exists, gen, files, away, cur, auto, cdirs, wstate, tracked, watches, kq, infl, gor, errs, idx, short, fsops, confs, obs, hist>>
+vars == <<exists, gen, files, away, cur, auto, cdirs, wstate, tracked, watches, kq, ub, infl, gor, errs, idx, short, fsops, confs, obs, hist>>
 fsvars == <<exists, gen, files, away>>
 
 EmptyFiles == [n \in Names |-> 0]
@@ -57,12 +58,16 @@ Ev(o, d, n) == [op |-> o, d |-> d, n |-> n]
 Act(a, d, n, c, w, nd, na) == [a |-> a, d |-> d, n |-> n, c |-> c, w |-> w, nd |-> nd, na |-> na]
 Rec(x) == hist' = IF RECORD THEN Append(hist, x) ELSE hist
 
-\* the kernel queues events on every open watcher that watches this generation of d
+\* the kernel queues events on every open watcher that watches this generation of d; an event
+\* identical (same watch, mask and name - rename cookies are not compared) to the newest one that
+\* has not been read yet is coalesced with it (inotify(7); observed on the real kernel: two files
+\* moved onto the same name give one IN_MOVED_TO when the first is still unread)
+Coalesce(q, evs) == IF Len(q) > 0 /\ Len(evs) > 0 /\ q[Len(q)] = evs[1] THEN q \o Tail(evs) ELSE q \o evs
 Emit(d, g, evs) ==
-  kq' = [w \in Wids |-> IF wstate[w] = "open" /\ watches[w][d] = g /\ g # 0 THEN kq[w] \o evs ELSE kq[w]]
+  kq' = [w \in Wids |-> IF wstate[w] = "open" /\ watches[w][d] = g /\ g # 0 THEN Coalesce(kq[w], evs) ELSE kq[w]]
 
 FsBudget == fsops < MaxFsOps /\ fsops' = fsops + 1
-CacheUnch == UNCHANGED <<cur, auto, cdirs, wstate, tracked, infl, gor, errs, idx, short, confs, obs>>
+CacheUnch == UNCHANGED <<cur, auto, cdirs, wstate, tracked, ub, infl, gor, errs, idx, short, confs, obs>>
 
 -----------------------------------------------------------------------------
 (* file-system operations: the histories of C11's statement *)
@@ -73,10 +78,10 @@ CreateWrite(d, n, c) ==   \* open(O_CREAT) + write: IN_CREATE, IN_MODIFY
   /\ Emit(d, gen[d], <<Ev("create", d, n), Ev("write", d, n)>>)
   /\ UNCHANGED <<exists, gen, away, watches>> /\ CacheUnch /\ Rec(Act("createwrite", d, n, c, 0, {}, FALSE))
 
-Rewrite(d, n, c) ==       \* rewritten in place: IN_MODIFY
+Rewrite(d, n, c) ==       \* rewritten in place: one IN_MODIFY per truncation / write call (one or two here)
   /\ FsBudget /\ exists[d] /\ files[d][n] # 0 /\ files[d][n] # c
   /\ files' = [files EXCEPT ![d][n] = c]
-  /\ Emit(d, gen[d], <<Ev("write", d, n)>>)
+  /\ \E k \in 1..2 : Emit(d, gen[d], [i \in 1..k |-> Ev("write", d, n)])
   /\ UNCHANGED <<exists, gen, away, watches>> /\ CacheUnch /\ Rec(Act("rewrite", d, n, c, 0, {}, FALSE))
 
 RenameWithin(d) ==        \* replaced by rename of the temporary name: IN_MOVED_FROM, IN_MOVED_TO
@@ -129,14 +134,22 @@ RenameDirAway(d) ==
 
 FileThere(e) == e.n = "." \/ (exists[e.d] /\ files[e.d][e.n] # 0)
 
-\* takes the next kernel event; create/write events whose file is gone are dropped; a
+\* read(2) on the inotify descriptor returns everything queued so far: the events leave the
+\* kernel queue (nothing can be coalesced with them any more) and wait in fsnotify's buffer
+ReaderRead(w) ==
+  /\ wstate[w] = "open" /\ infl[w] = NoEv /\ ub[w] = <<>> /\ kq[w] # <<>>
+  /\ ub' = [ub EXCEPT ![w] = kq[w]] /\ kq' = [kq EXCEPT ![w] = <<>>]
+  /\ UNCHANGED <<exists, gen, files, away, cur, auto, cdirs, wstate, tracked, watches, infl, gor, errs, idx, short, fsops, confs, obs>>
+  /\ Rec(Act("read", "", "", 0, w, {}, FALSE))
+
+\* takes the next buffered event; create/write events whose file is gone are dropped; a
 \* delete-self makes fsnotify forget the watch (the kernel already has)
 ReaderFetch(w) ==
-  /\ wstate[w] = "open" /\ infl[w] = NoEv /\ kq[w] # <<>>
-  /\ kq' = [kq EXCEPT ![w] = Tail(@)]
-  /\ LET e == Head(kq[w]) IN
+  /\ wstate[w] = "open" /\ infl[w] = NoEv /\ ub[w] # <<>>
+  /\ ub' = [ub EXCEPT ![w] = Tail(@)]
+  /\ LET e == Head(ub[w]) IN
      infl' = [infl EXCEPT ![w] = IF e.op \in {"create", "write"} /\ ~FileThere(e) THEN NoEv ELSE e]
-  /\ UNCHANGED <<exists, gen, files, away, cur, auto, cdirs, wstate, tracked, watches, gor, errs, idx, short, fsops, confs, obs>>
+  /\ UNCHANGED <<exists, gen, files, away, cur, auto, cdirs, wstate, tracked, watches, kq, gor, errs, idx, short, fsops, confs, obs>>
   /\ Rec(Act("fetch", "", "", 0, w, {}, FALSE))
 
 -----------------------------------------------------------------------------
@@ -150,14 +163,14 @@ GorRecv(w) ==
   /\ gor[w].pc = "recv" /\ infl[w] # NoEv
   /\ infl' = [infl EXCEPT ![w] = NoEv]
   /\ gor' = [gor EXCEPT ![w] = IF Relevant(infl[w]) THEN [pc |-> "have", ev |-> infl[w]] ELSE @]
-  /\ UNCHANGED <<exists, gen, files, away, cur, auto, cdirs, wstate, tracked, watches, kq, errs, idx, short, fsops, confs, obs>>
+  /\ UNCHANGED <<exists, gen, files, away, cur, auto, cdirs, wstate, tracked, watches, kq, ub, errs, idx, short, fsops, confs, obs>>
   /\ Rec(Act(IF Relevant(infl[w]) THEN "recv" ELSE "recvdrop", infl[w].d, infl[w].n, 0, w, {}, FALSE))
 
 \* the Events channel of a closed watcher is closed: the goroutine returns
 GorExit(w) ==
   /\ gor[w].pc = "recv" /\ wstate[w] = "closed"
   /\ gor' = [gor EXCEPT ![w] = [pc |-> "dead", ev |-> NoEv]]
-  /\ UNCHANGED <<exists, gen, files, away, cur, auto, cdirs, wstate, tracked, watches, kq, infl, errs, idx, short, fsops, confs, obs>>
+  /\ UNCHANGED <<exists, gen, files, away, cur, auto, cdirs, wstate, tracked, watches, kq, ub, infl, errs, idx, short, fsops, confs, obs>>
   /\ Rec(Act("exit", "", "", 0, w, {}, FALSE))
 
 \* inotify_add_watch needs no new descriptor: only creating a watcher is affected by a shortage
@@ -181,10 +194,16 @@ ApplyUpdate(e, removed) ==
   /\ watches' = [watches EXCEPT ![cur] = [d \in D |-> IF d \in r.add THEN gen[d] ELSE @[d]]]
   /\ errs' = [errs EXCEPT ![e] = r.errs]
 
+\* the watcher the shared watch struct points at: stop() keeps the pointer, only setup() replaces it
+\* (by a new watcher, or by nil when creating one fails) - so after a switch to manual refresh the
+\* pointer still is the stopped watcher, and its goroutine, if it holds an event, still rescans once
+WatcherPtr == LET S == { x \in 1..cur : wstate[x] # "none" } IN
+              IF S = {} THEN 0 ELSE CHOOSE x \in S : \A y \in S : y <= x
+
 \* under the mutex: update the watch, rescan
 GorHandle(w) ==
   /\ gor[w].pc = "have"
-  /\ IF FIX_STALE /\ w # cur
+  /\ IF FIX_STALE /\ w # WatcherPtr
      THEN \* its watcher has been replaced: nothing to do, the goroutine ends
           /\ gor' = [gor EXCEPT ![w] = [pc |-> "dead", ev |-> NoEv]]
           /\ UNCHANGED <<tracked, watches, errs, idx>>
@@ -194,7 +213,7 @@ GorHandle(w) ==
              IN ApplyUpdate(w, IF dirgone THEN {e.d} ELSE {})
           /\ idx' = Fresh(cdirs)
           /\ gor' = [gor EXCEPT ![w] = [pc |-> IF wstate[w] = "closed" THEN "dead" ELSE "recv", ev |-> NoEv]]
-  /\ UNCHANGED <<exists, gen, files, away, cur, auto, cdirs, wstate, kq, infl, short, fsops, confs, obs>>
+  /\ UNCHANGED <<exists, gen, files, away, cur, auto, cdirs, wstate, kq, ub, infl, short, fsops, confs, obs>>
   /\ Rec(Act("handle", gor[w].ev.d, gor[w].ev.n, 0, w, {}, FALSE))
 
 -----------------------------------------------------------------------------
@@ -209,7 +228,7 @@ Query ==
           /\ idx' = IF UpdateResult(cur, {}).changed THEN Fresh(cdirs) ELSE idx
      ELSE UNCHANGED <<tracked, watches, errs, idx>>
   /\ obs' = idx'
-  /\ UNCHANGED <<exists, gen, files, away, cur, auto, cdirs, wstate, kq, infl, gor, short, fsops, confs>>
+  /\ UNCHANGED <<exists, gen, files, away, cur, auto, cdirs, wstate, kq, ub, infl, gor, short, fsops, confs>>
   /\ Rec(Act("query", "", "", 0, 0, {}, FALSE))
 
 \* Configure(WithSpecDirs(nd), WithAutoRefresh(na)): stop, set up, start, refresh
@@ -222,7 +241,7 @@ Configure(nd, na) ==
      /\ cur' = new /\ auto' = na /\ cdirs' = nd
      /\ wstate' = [wstate EXCEPT ![cur] = IF @ = "open" THEN "closed" ELSE @,
                                  ![new] = IF ~na THEN "none" ELSE IF ok THEN "open" ELSE "nil"]
-     /\ kq' = [kq EXCEPT ![cur] = <<>>] /\ infl' = [infl EXCEPT ![cur] = NoEv]
+     /\ kq' = [kq EXCEPT ![cur] = <<>>] /\ ub' = [ub EXCEPT ![cur] = <<>>] /\ infl' = [infl EXCEPT ![cur] = NoEv]
      /\ tracked' = [d \in D |-> IF ~na THEN "no" ELSE IF d \notin nd THEN "no" ELSE IF d \in add THEN "t" ELSE "f"]
      /\ watches' = [watches EXCEPT ![cur] = [d \in D |-> 0], ![new] = [d \in D |-> IF d \in add THEN gen[d] ELSE 0]]
      /\ errs' = [errs EXCEPT ![new] = [d \in D |-> IF ~na \/ d \notin nd THEN "none"
@@ -235,7 +254,7 @@ Configure(nd, na) ==
   /\ Rec(Act("configure", "", "", 0, cur + 1, nd, na))
 
 Shortage == /\ WithShortage /\ short' = ~short
-            /\ UNCHANGED <<exists, gen, files, away, cur, auto, cdirs, wstate, tracked, watches, kq, infl, gor, errs, idx, fsops, confs, obs>>
+            /\ UNCHANGED <<exists, gen, files, away, cur, auto, cdirs, wstate, tracked, watches, kq, ub, infl, gor, errs, idx, fsops, confs, obs>>
             /\ Rec(Act("shortage", "", "", 0, 0, {}, ~short))
 
 FsOp == \/ \E d \in D, n \in Names, c \in 1..2 : CreateWrite(d, n, c) \/ Rewrite(d, n, c)
@@ -249,7 +268,7 @@ Init ==
   /\ wstate = [w \in Wids |-> IF w = 1 THEN "open" ELSE "none"]
   /\ tracked = [d \in D |-> IF d \notin cdirs THEN "no" ELSE IF exists[d] THEN "t" ELSE "f"]
   /\ watches = [w \in Wids |-> [d \in D |-> IF w = 1 /\ d \in cdirs /\ exists[d] THEN 1 ELSE 0]]
-  /\ kq = [w \in Wids |-> <<>>] /\ infl = [w \in Wids |-> NoEv]
+  /\ kq = [w \in Wids |-> <<>>] /\ ub = [w \in Wids |-> <<>>] /\ infl = [w \in Wids |-> NoEv]
   /\ gor = [w \in Wids |-> IF w = 1 THEN [pc |-> "recv", ev |-> NoEv] ELSE [pc |-> "none", ev |-> NoEv]]
   /\ errs = [e \in Wids |-> [d \in D |-> IF e = 1 /\ d \in cdirs /\ ~exists[d] THEN "monitor" ELSE "none"]]
   /\ idx = [d \in D |-> 0] /\ short = FALSE /\ fsops = 0 /\ confs = 0
@@ -257,12 +276,12 @@ Init ==
   /\ hist = IF RECORD THEN <<[a |-> "init", d |-> "", n |-> "", c |-> 0, w |-> 1, nd |-> cdirs, na |-> TRUE, ex |-> { d \in D : exists[d] }]>> ELSE <<>>
 
 Next == \/ FsOp
-        \/ \E w \in Wids : ReaderFetch(w) \/ GorRecv(w) \/ GorExit(w) \/ GorHandle(w)
+        \/ \E w \in Wids : ReaderRead(w) \/ ReaderFetch(w) \/ GorRecv(w) \/ GorExit(w) \/ GorHandle(w)
         \/ Query
         \/ \E nd \in DirOptions, na \in BOOLEAN : Configure(nd, na)
         \/ Shortage
 
-Fair == /\ \A w \in Wids : WF_vars(ReaderFetch(w)) /\ WF_vars(GorRecv(w)) /\ WF_vars(GorExit(w)) /\ WF_vars(GorHandle(w))
+Fair == /\ \A w \in Wids : WF_vars(ReaderRead(w)) /\ WF_vars(ReaderFetch(w)) /\ WF_vars(GorRecv(w)) /\ WF_vars(GorExit(w)) /\ WF_vars(GorHandle(w))
         /\ WF_vars(Query)
 Spec == Init /\ [][Next]_vars /\ Fair
 
@@ -292,7 +311,7 @@ WatchesOK == \A w \in Wids, d \in D : (watches[w][d] # 0 /\ wstate[w] = "open") 
 TypeOK == cur \in Wids /\ fsops \in 0..MaxFsOps /\ confs \in 0..MaxConfs
 
 \* behaviours for the replay harness: printed from quiescent states with the budgets used up
-Quiescent == \A w \in Wids : kq[w] = <<>> /\ infl[w] = NoEv /\ gor[w].pc # "have"
+Quiescent == \A w \in Wids : kq[w] = <<>> /\ ub[w] = <<>> /\ infl[w] = NoEv /\ gor[w].pc # "have"
 EmitRow == (RECORD /\ fsops = MaxFsOps /\ confs = MaxConfs /\ Quiescent /\ Len(hist) > 1 /\ hist[Len(hist)].a = "query")
              => PrintT(ToJson([hist |-> hist, cdirs |-> cdirs, auto |-> auto, fresh |-> Fresh(cdirs),
                                missing |-> { d \in cdirs : ~exists[d] }, obs |-> obs]))
